@@ -104,7 +104,7 @@ pub const INJECTORS: &[Inj] = &[
                 return false;
             }
             let mut ct = FORM.to_vec();
-            let opts: [&[u8]; 3] = [b"; charset=zz-nonexistent", b";charset=ZZ9", b"; x=y; charset=zzz"];
+            let opts: [&[u8]; 6] = [b"; charset=zz-nonexistent", b";charset=ZZ9", b"; x=y; charset=zzz", b";; charset=zz-after-empty", b"; flag; charset=zz-after-valueless", b"; ;charset=zz9"];
             let tail: &[u8] = *r.pick(&opts);
             ct.extend_from_slice(tail);
             b.ov.content_type_override = Some(ct);
